@@ -830,6 +830,45 @@ func VfVersions() {
 		}
 		zzvf.Assert(ia > ib, "versions-are-listed-newest-first")
 	}
+	// paging: following the returned markers page by page yields every version and marker exactly once
+	page := int32(1 + zzvf.Choice("page_size_minus_1", 2))
+	km, vm := "", ""
+	seen := map[string]int{}
+	total := 0
+	for pages := 0; ; pages++ {
+		if pages > len(hist)+2 {
+			zzvf.Fail("version-listing-pages-terminate")
+			return
+		}
+		pg, err := p.ListObjectVersions(vfCtx(), &s3.ListObjectVersionsInput{Bucket: vfStr("bkt"), Delimiter: vfStr(""), KeyMarker: &km,
+			MaxKeys: &page, Prefix: vfStr("k"), VersionIdMarker: &vm})
+		zzvf.Assert(err == nil, "paged-list-versions-succeeds")
+		if err != nil {
+			return
+		}
+		zzvf.Assert(len(pg.Versions)+len(pg.DeleteMarkers) <= int(page), "page-not-larger-than-max-keys")
+		for _, ov := range pg.Versions {
+			seen[*ov.VersionId]++
+			total++
+		}
+		for _, dm := range pg.DeleteMarkers {
+			seen[*dm.VersionId]++
+			total++
+		}
+		if pg.IsTruncated == nil || !*pg.IsTruncated {
+			break
+		}
+		zzvf.Assert(pg.NextKeyMarker != nil && pg.NextVersionIdMarker != nil, "truncated-page-has-next-markers")
+		if pg.NextKeyMarker == nil || pg.NextVersionIdMarker == nil {
+			return
+		}
+		km, vm = *pg.NextKeyMarker, *pg.NextVersionIdMarker
+	}
+	zzvf.Reach("paged")
+	zzvf.Assert(total == len(hist), "paged-version-listing-reports-every-entry-once")
+	for _, v := range hist {
+		zzvf.Assert(seen[v.id] == 1, "paged-version-listing-reports-every-entry-once")
+	}
 }
 
 // ---- C11: crash at every file-system step
